@@ -30,7 +30,7 @@ class LoopSpec:
 class Case:
     def __init__(self, label, params, requires=None, ensures=None, raises=None, loops=None, exact_integer=False,
                  must_return=None, result_name="result", ghost=None, max_paths=400, axioms=None, yields=None,
-                 native_gen=None, native_call=None, size_bounded=False, kwargs_map=None, native_raw=False):
+                 native_gen=None, native_call=None, size_bounded=False, kwargs_map=None, native_raw=False, exc_ensures=None):
         self.label, self.params = label, params
         self.requires, self.ensures = requires, ensures
         self.raises = raises or {}
@@ -44,6 +44,8 @@ class Case:
         self.native_gen = native_gen
         self.native_call = native_call
         self.size_bounded = size_bounded
+        if exc_ensures is not None:
+            self.exc_ensures = exc_ensures      # (exception name, old, new) -> condition that must hold when that exception escapes
         self.native_raw = native_raw            # native_call builds its own real inputs from the plain model data (no realize step)
         self.kwargs_map = kwargs_map or {}      # keyword name -> case parameter passed under that keyword (**kwargs of the function)
 
